@@ -263,7 +263,7 @@ class Harness:
         for (i, j) in w.model.open:
             sims.setdefault(j, set()).add(i)
         if any(len(v) > 1 for v in sims.values()) and hist:
-            return ("shared-sim", self.canon(w))
+            return ("shared-sim", w.model.key())   # model only: the explorer may already have closed this world
         return None
 
     # ---- datagram construction ----------------------------------------------------------------------
